@@ -305,7 +305,7 @@ func (e *Exec) sprintf(format string, args []Value) Str {
 		return Str{s: fmt.Sprintf(f, gos...)}
 	}
 	// piecewise: a string with symbolic bytes under a plain %v / %s is spliced in byte for byte
-	opaque := Str{s: "<formatted:" + format + ">", opaque: true}
+	opaque := Str{s: "<formatted:" + format + ">", opaque: true, nonEmpty: formatHasLiteral(f)}
 	out := Str{}
 	arg := 0
 	for i := 0; i < len(f); {
@@ -911,6 +911,13 @@ func init() {
 	reg("os.LookupEnv", func(e *Exec, c *frame, fn *ssa.Function, a []Value) Value { return Tuple{Str{}, mkBool(false)} })
 	reg("time.Sleep", func(e *Exec, c *frame, fn *ssa.Function, a []Value) Value { return nil })
 	reg("time.Now", func(e *Exec, c *frame, fn *ssa.Function, a []Value) Value {
+		const unixToInternal0 = (1969*365 + 1969/4 - 1969/100 + 1969/400) * 86400
+		if e.P.cfg.ConcreteTime {
+			// spec option concrete_time: a fixed clock that advances one second per call (for harnesses in which the
+			// clock only ends up in log / response texts)
+			e.ghost["time.Now"]++
+			return Struct{Sc{}, Sc{C: uint64(unixToInternal0 + 1700000000 + e.ghost["time.Now"])}, (*Value)(nil)}
+		}
 		// Time{wall:0, ext: seconds since year 1, loc: nil (UTC)} ; seconds are symbolic but within 1970..2255
 		v := e.freshVar("time.Now", 64)
 		c1 := e.ctx
@@ -1509,4 +1516,22 @@ func atomicOp(op string, elemT types.Type, cellOf func(e *Exec, p Value) *Value)
 		}
 	}
 	return nil
+}
+
+
+// formatHasLiteral reports whether a fmt format string contains text outside its verbs (then the result is not empty).
+func formatHasLiteral(f string) bool {
+	for i := 0; i < len(f); i++ {
+		if f[i] != '%' {
+			return true
+		}
+		i++
+		if i < len(f) && f[i] == '%' {
+			return true
+		}
+		for i < len(f) && !((f[i] >= 'a' && f[i] <= 'z') || (f[i] >= 'A' && f[i] <= 'Z')) {
+			i++
+		}
+	}
+	return false
 }
